@@ -25,10 +25,23 @@ def check_loop_exits(ctx, rule, paths):
     ctx.check(len(loops) == 1, rule, 'parse_all:one-loop', f_pa.loc(), 'parse_all is one read loop')
     nb = 0
     from ..sim import is_new_function
-    scope = [f_pa] + [g for g in repo.callgraph().closure([f_pa]) if is_new_function(g)]
+    from .common import scope_funcs
+    scope = scope_funcs(repo, f_pa)     # parse_all and the helpers freshly extracted from it
+
+    def read_loop_of(fn_, n):
+        """is the nearest loop around n the read loop (parse_all's loop, or the loop of a generator helper that yields the lines)?"""
+        lp = getattr(n, '_parent', None)
+        while lp is not None and not isinstance(lp, (ast.While, ast.For, ast.FunctionDef)):
+            lp = getattr(lp, '_parent', None)
+        if not isinstance(lp, (ast.While, ast.For)):
+            return False
+        if fn_ is f_pa:
+            return lp in loops and not any(isinstance(a, (ast.While, ast.For)) and a is not lp and lp in list(ast.walk(a)) for a in loops)
+        return any(isinstance(x, (ast.Yield, ast.YieldFrom)) for x in ast.walk(lp))
     for fn_ in scope:
+      is_gen = any(isinstance(x, (ast.Yield, ast.YieldFrom)) for x in ast.walk(fn_.node))
       for n in fn_.body_nodes():
-        if (isinstance(n, ast.Return) and (fn_ is f_pa or any(isinstance(x, ast.Yield) for x in ast.walk(fn_.node)))) or isinstance(n, ast.Break):
+        if (isinstance(n, ast.Return) and (fn_ is f_pa or is_gen)) or (isinstance(n, ast.Break) and (fn_ is f_pa or is_gen) and read_loop_of(fn_, n)):
             if isinstance(n, ast.Return) and n.value is not None:
                 continue
             nb += 1
@@ -186,8 +199,11 @@ def run(ctx):
               'the pass-through handler prints exactly the exception\'s text', 'the pass-through handler prints %s' % [norm(c)[:60] for c in calls])
     reach = ex.reaching_handler(f_pa, h)
     funcs = {}
+    from .common import effective_funcs
     for rs, chain in reach:
-        funcs.setdefault(rs.func.qual, []).append(rs)
+        # a raise inside a freshly extracted helper is a raise of the function(s) it was extracted from
+        effs = effective_funcs(repo, rs.func)
+        funcs.setdefault(effs[0].qual if len(effs) == 1 else rs.func.qual, []).append(rs)
     ctx.floor('C08.2', len(funcs), 1, 'raise functions reaching the pass-through handler')
     for q, sites in sorted(funcs.items()):
         key = 'passthrough-raise:%s' % q
@@ -204,6 +220,11 @@ def run(ctx):
     for rs in own:
         n = rs.node
         good = isinstance(n.exc, ast.Call) and len(n.exc.args) == 1 and norm(n.exc.args[0]) == f_msg.params()[0]
+        if not good and rs.func is not f_msg and isinstance(n.exc, ast.Call) and len(n.exc.args) == 1 and isinstance(n.exc.args[0], ast.Name) and n.exc.args[0].id in rs.func.params():
+            # raised in an extracted helper: its parameter must be bound to the raw line at the call in message()
+            k_ = rs.func.params().index(n.exc.args[0].id)
+            sites_ = [x for x in f_msg.body_nodes() if isinstance(x, ast.Call) and isinstance(x.func, ast.Name) and x.func.id == rs.func.name]
+            good = bool(sites_) and all((len(c_.args) > k_ and norm(c_.args[k_]) == f_msg.params()[0]) or any(kw.arg == n.exc.args[0].id and norm(kw.value) == f_msg.params()[0] for kw in c_.keywords) for c_ in sites_)
         ctx.check(good, 'C08.2', 'message:raises-the-line', f_msg.loc(n), 'the not-a-message error carries the raw line itself', 'the not-a-message error carries %s' % norm(n)[:80])
     ctx.floor('C08.2', len(own), 1, 'not-a-message raise in parse.message')
     # no RuntimeError can come out of the listener dispatch (a line never yields both a shown message and a pass-through item)
